@@ -23,7 +23,7 @@ def run(tier, seed):
             m.independence_part(ctx, tier)
     from props import collection, adaptive
     adaptive.collection_part(ctx, tier)
-    collection.run_part(ctx, tier)       # HistogramCollection: create / add / sum / normalize_* / copy / round trip / refusals
+    collection.run_part(ctx, tier, quick_combos=1, quick_budget=30000)       # HistogramCollection: create / add / sum / normalize_* / copy / round trip / refusals
     ctx.assumptions = ["independence is judged by the public snapshots of all live objects after every step, never by identity of internals"]
     return ctx.finish("every history New -> derive (copy, empty copy, +, -, *, /, normalize, merge_bins, slice) -> mutate either "
                       "object (fill, +=, *=, /=, dtype, name, in-place merge, in-place normalize) enumerated by TLC is executed "
